@@ -1596,6 +1596,8 @@ def model_value(m, v):
     r = m.eval(v, model_completion=True)
     if z3.is_int_value(r):
         return r.as_long()
+    if z3.is_bv_value(r):
+        return r.as_long()
     if z3.is_rational_value(r):
         return fractions.Fraction(r.numerator_as_long(), r.denominator_as_long())
     if z3.is_algebraic_value(r):
